@@ -54,7 +54,56 @@ def shards(tier):
     size = 64 if tier == "quick" else 128
     out = [(i, min(i + size, nfull)) for i in range(0, nfull, size)]
     out += [(i, min(i + 2048, len(uni))) for i in range(nfull, len(uni), 2048)]
+    out += [("build", i) for i in range(len(build_ops()))]
     return out
+
+
+BUILD_NAMES = ("A", "B", "C")
+
+
+def build_ops():
+    import itertools as itt
+
+    return [("d", u, v) for u in BUILD_NAMES for v in BUILD_NAMES if u != v] + [("b", u, v) for u, v in itt.combinations(BUILD_NAMES, 2)]
+
+
+def explore_builder(res: Res, first, tier, seed):
+    """Every sequence of 3 edge insertions on ONE live graph object (3 names); after every insertion every query is
+    identified on that object and the estimand is evaluated on the witness of the graph as it is now."""
+    import itertools as itt
+
+    from y0.graph import NxMixedGraph
+
+    from ..graphs import is_acyclic
+
+    ops = build_ops()
+    for tail in itt.product(range(len(ops)), repeat=2):
+        seq = (first,) + tail
+        y = NxMixedGraph()
+        for n in BUILD_NAMES:
+            y.add_node(V(n))
+        di, bi, hist = [], [], []
+        for k in seq:
+            kind, u, v = ops[k]
+            hist.append([kind, u, v])
+            if kind == "d":
+                if (u, v) in di or not is_acyclic(BUILD_NAMES, di + [(u, v)]):
+                    break
+                di.append((u, v))
+                y.add_directed_edge(V(u), V(v))
+            else:
+                if (u, v) in bi:
+                    break
+                bi.append((u, v))
+                y.add_undirected_edge(V(u), V(v))
+            g = G(BUILD_NAMES, tuple(di), tuple(bi))
+            models = [("W2", SCM(g, salt=f"s{seed}"))]
+            before = len(res.violations)
+            for x, yy in disjoint_pairs(g.nodes):
+                case = {"builder_ops": list(hist), "graph": g.to_json(), "X": list(x), "Y": list(yy)}
+                check_query(res, g, y, x, yy, models, case)
+            if len(res.violations) > before:
+                break
 
 
 def describe(tier):
@@ -73,6 +122,7 @@ def describe(tier):
             if tier == "thorough"
             else " whose first step is line 7 (G minus X is not a district of G), binary witness only"
         )
+        + "; plus every sequence of 3 edge insertions on one live three-node graph object with all queries after every insertion"
         + "; witness profiles: all-binary"
         + (" + first node ternary + last node ternary (second salt)" if tier == "thorough" else " + one ternary node")
         + "; every value assignment of estimand free variables, X and Y",
@@ -165,8 +215,11 @@ def explore_graph(res: Res, g: G, tier, seed, only=None, mode="full"):
 
 
 def work(shard, tier, seed):
-    lo, hi = shard
     res = Res()
+    if shard[0] == "build":
+        explore_builder(res, shard[1], tier, seed)
+        return res
+    lo, hi = shard
     for mode, g in _universe(tier)[lo:hi]:
         explore_graph(res, g, tier, seed, mode=mode)
     return res
@@ -175,6 +228,11 @@ def work(shard, tier, seed):
 def replay(case, clause=None):
     import os
 
+    if "builder_ops" in case:
+        res = Res()
+        ops = build_ops()
+        explore_builder(res, ops.index(tuple(case["builder_ops"][0])), "quick", int(os.environ.get("VERIF_SEED", "0") or 0))
+        return [v for v in res.violations if v["input"].get("builder_ops") == case["builder_ops"]][:1]
     g = G.from_json(case["graph"])
     res = Res()
     explore_graph(res, g, "thorough", int(os.environ.get("VERIF_SEED", "0") or 0), only=[case["X"], case["Y"]])
